@@ -1,7 +1,7 @@
 /-
   Line-protocol handlers of property C06 (driver side, core Lean only):
-    lpass <GoPassName[:k1,k2]> <schemas-vir>   -> ok <vir> | err | panic | nondet
-    chain <lang> <schemas-vir>                 -> ok <vir> | err | panic | nondet
+    lpass <GoPassName[:k1,k2]> <schemas-vir>   -> ok <vir> | err | panic
+    chain <lang> <schemas-vir>                 -> ok <vir> | err | panic
     nf <lang> <schemas-vir>                    -> true | false <conjunct>,<conjunct>…
     ucc <"string">                             -> <"UpperCamelCase(string)">
     c06witness list | c06witness <name>        -> ok <names…> | <lang> <conjunct> <schemas-vir>
@@ -29,16 +29,14 @@ def lpassLine (rest : String) : String :=
     match PassId.ofName name with
     | none => "unknown-pass"
     | some p =>
-      if p == .disjunctionInferMapping && DisjunctionInferMapping.ambiguous ss then "nondet"
-      else Vir.outcomeOut Vir.schemasOut (p.run ss)
+      Vir.outcomeOut Vir.schemasOut (p.run ss)
 
 def chainLine (rest : String) : String :=
   withSchemas rest fun lang ss =>
     match Cog.Gen.Chains.chainOf lang with
     | none => "unknown-language"
     | some ps =>
-      if chainAmbiguous ps ss then "nondet"
-      else Vir.outcomeOut Vir.schemasOut (runChain ps ss)
+      Vir.outcomeOut Vir.schemasOut (runChain ps ss)
 
 def nfLine (rest : String) : String :=
   withSchemas rest fun lang ss =>
